@@ -1,4 +1,5 @@
 import IwModel.Lemmas.Exec
+import IwModel.Lemmas.ExecTp
 /-! # C20 — task executors run every accepted task exactly once and drain on shutdown
 
 Theorems about the transition systems `Exec.Stw` (src/utils/iwstw.c) and `Exec.Tp` (src/utils/iwtp.c) of
@@ -196,5 +197,174 @@ example :
        .call 0 (.shutdown true), .step (.client 0) 0, .step (.worker 0) 0, .step (.worker 0) 0, .step (.worker 0) 0,
        .step (.worker 0) 0, .step (.client 0) 0]
     s.freed = true ∧ s.accepted = [1, 2, 3] ∧ s.finished = [1, 3] ∧ s.dropped = [2] ∧ s.reported = [2] := by decide
+
+/-! ## Thread pool -/
+
+/-- Reachable states of the pool: any positive number of threads, any limit, overflow factor, number of client
+    threads and schedule (incl. which waiter each `pthread_cond_signal` wakes, and spurious wake-ups). -/
+def TpReach (s : Tp) : Prop :=
+  ∃ nthreads limit factor n ls, 0 < nthreads ∧ s = (Tp.init nthreads limit factor n).run ls
+
+theorem tp_inv {s : Tp} (h : TpReach s) : Tp.Inv s := by
+  obtain ⟨nthreads, limit, factor, n, ls, hn, rfl⟩ := h
+  exact Tp.inv_run (Tp.inv_init _ _ _ _ hn) ls
+
+/-- **Exactly once (conservation)** for the pool: every accepted task is, with multiplicity, in exactly one of:
+    finished, being run by some pool thread, queued, dropped. -/
+theorem tp_accepted_once {s : Tp} (h : TpReach s) (t : Task) :
+    s.accepted.count t = s.finished.count t + s.ws.count (.run t) + s.queue.count t + s.dropped.count t := by
+  have hi := tp_inv h
+  have h1 := hi.h.conserve t
+  have h2 := hi.h.running t
+  omega
+
+/-- pool threads take tasks off the queue in acceptance order -/
+theorem tp_start_order {s : Tp} (h : TpReach s) : (s.started ++ s.queue).Sublist s.accepted :=
+  (tp_inv h).h.fifo
+
+theorem tp_started_nodup {s : Tp} (h : TpReach s) (hd : s.accepted.Nodup) : s.started.Nodup :=
+  ((List.sublist_append_left _ _).trans (tp_inv h).h.fifo).nodup hd
+
+/-- **Bounded queue.** -/
+theorem tp_bounded {s : Tp} (h : TpReach s) : s.qsize = s.queue.length ∧ (s.limit ≠ 0 → s.queue.length ≤ s.limit) :=
+  ⟨(tp_inv h).q.qs_len, (tp_inv h).q.bound⟩
+
+/-- **Full queue rejects; a pool that is shutting down refuses.** -/
+theorem tp_full_policy {s : Tp} (h : TpReach s) (i sel : Nat) (t : Task)
+    (hc : s.client i = .enter (.sched t)) (hf : s.freed = false) :
+    (s.shutdown = true → (s.step (.step (.client i) sel)).2 = [.ret i .invalidState false]) ∧
+    (s.shutdown = false → s.limit ≠ 0 → s.limit ≤ s.qsize → (s.step (.step (.client i) sel)).2 = [.ret i .overflow false]) ∧
+    (s.shutdown = false → (s.limit = 0 ∨ s.qsize < s.limit) →
+       (s.step (.step (.client i) sel)).1.accepted = s.accepted ++ [t] ∧
+       (s.step (.step (.client i) sel)).1.queue = s.queue ++ [t]) := by
+  have hv := (tp_inv h).q.fixed
+  simp only [Tp.step, Tp.clientStep, hc, hf, hv, Tp.ret]
+  refine ⟨?_, ?_, ?_⟩
+  · intro hs; simp [hs]
+  · intro hs h1 h2
+    have : (s.limit != 0 && decide (s.qsize + 1 > s.limit)) = true := by simp [h1]; omega
+    simp [hs, this]
+  · intro hs h1
+    have : (s.limit != 0 && decide (s.qsize + 1 > s.limit)) = false := by
+      rcases h1 with h1 | h1
+      · simp [h1]
+      · simp; intro _; omega
+    simp only [hs, this]
+    constructor <;> (repeat' split) <;> simp_all
+
+/-- **No lost wake-up.** While the queue is non-empty some regular pool thread is awake or has a signal pending
+    (`pthread_cond_signal` per task is enough); and once shutdown has begun no thread sleeps without a signal. -/
+theorem tp_no_lost_wakeup {s : Tp} (h : TpReach s) :
+    (s.queue ≠ [] → ∃ k, k < s.nthreads ∧ wEnabled (s.worker k) = true) ∧
+    (s.shutdown = true → ∀ k, s.worker k ≠ .wait false) :=
+  ⟨(tp_inv h).sy.witness, (tp_inv h).sy.sd_nowait⟩
+
+/-- **No deadlock.** If some client thread is inside a call, some thread can take a step. -/
+theorem tp_deadlock_free {s : Tp} (h : TpReach s) (i : Nat) (hc : s.client i ≠ .idle) :
+    ∃ th, s.enabled th = true := by
+  have hi := tp_inv h
+  have hm := Tp.client_mem rfl hc
+  cases hci : s.client i with
+  | idle => exact absurd hci hc
+  | enter c => exact ⟨.client i, by simp [Tp.enabled, hci, cEnabled]⟩
+  | blocked t b => rw [hci] at hm; exact absurd hm (hi.sy.c_noblock t b)
+  | joining j =>
+    rw [hci] at hm
+    have hsd := hi.sy.c_join j hm
+    by_cases hw : s.worker (s.joinlist.getD j 0) = .exited
+    · exact ⟨.client i, by simp only [Tp.enabled, hci, cEnabled, hw, beq_self_eq_true]⟩
+    · refine ⟨.worker (s.joinlist.getD j 0), ?_⟩
+      rcases wEnabled_cases (s.worker (s.joinlist.getD j 0)) with hw' | hw' | hw'
+      · simpa [Tp.enabled] using hw'
+      · exact absurd hw' (hi.sy.sd_nowait hsd _)
+      · exact absurd hw' hw
+
+/-- **Shutdown drains.** Once `iwtp_shutdown` has returned (`freed`), every thread ever started by the pool
+    (regular or overflow) has left, nothing is queued or running, and every accepted task has finished or was
+    dropped (dropping happens only in a non-waiting shutdown, `tp_drop_exact`). -/
+theorem tp_shutdown_drains {s : Tp} (h : TpReach s) (hf : s.freed = true) :
+    (∀ k, s.worker k = .exited) ∧ s.queue = [] ∧ ∀ t, s.accepted.count t = s.finished.count t + s.dropped.count t := by
+  have hi := tp_inv h
+  have hall := hi.jn.freed_all hf
+  have hq := (hi.sy.exit_empty 0 hi.sy.nth_pos (hall 0)).2
+  refine ⟨hall, hq, fun t => ?_⟩
+  have := tp_accepted_once h t
+  rw [Tp.not_running_of_all_exited s.ws hall t, hq] at this
+  simpa using this
+
+/-- the shutdown call joins exactly the registered threads, and every thread it does not join has already left -/
+theorem tp_joins_all {s : Tp} (h : TpReach s) :
+    (s.shutdown = true → s.joinlist = s.threads) ∧ (∀ k, k ∈ s.threads ∨ s.worker k = .exited) ∧
+    (∀ k, k < s.nthreads → k ∈ s.threads) :=
+  ⟨(tp_inv h).jn.join_eq, (tp_inv h).jn.threads_reg, (tp_inv h).jn.reg_in⟩
+
+/-- **Drops are exact.** Only the critical section of a non-waiting shutdown changes `dropped`, by exactly the
+    queue of that moment. -/
+theorem tp_drop_exact {s : Tp} (l : Label) :
+    (s.step l).1.dropped = s.dropped ∨
+    ((s.step l).1.dropped = s.dropped ++ s.queue ∧ (s.step l).1.queue = [] ∧
+      ∃ i sel, l = .step (.client i) sel ∧ s.client i = .enter (.shutdown false)) := by
+  cases l with
+  | call i c => left; simp only [Tp.step]; repeat' split
+                all_goals rfl
+  | spur th => left; cases th <;> simp only [Tp.step] <;> repeat' split
+               all_goals rfl
+  | step th sel =>
+    cases th with
+    | worker k =>
+      left; simp only [Tp.step, Tp.workerStep]
+      repeat' split
+      all_goals rfl
+    | client i =>
+      simp only [Tp.step, Tp.clientStep, Tp.ret]
+      repeat' split
+      all_goals first
+        | (left; rfl)
+        | (right; refine ⟨rfl, rfl, i, sel, rfl, ?_⟩; simp_all)
+
+/-- F38 (open): the pool never calls a discard callback — no step has a `discard` event, so the tasks dropped by
+    a non-waiting `iwtp_shutdown` are reported to nobody. -/
+theorem tp_never_reports (s : Tp) (l : Label) : discardsOf (s.step l).2 = [] := by
+  cases l with
+  | call i c => simp only [Tp.step]; repeat' split
+                all_goals rfl
+  | spur th => cases th <;> simp only [Tp.step] <;> repeat' split
+               all_goals rfl
+  | step th sel =>
+    cases th with
+    | worker k =>
+      simp only [Tp.step, Tp.workerStep]
+      repeat' split
+      all_goals rfl
+    | client i =>
+      simp only [Tp.step, Tp.clientStep, Tp.ret]
+      repeat' split
+      all_goals simp [discardsOf]
+
+/-- F35: without the test of `shutdown` in `iwtp_schedule` a task submitted while the shutdown call joins the
+    threads is accepted and never run. -/
+theorem tp_unfixed_accepts_after_shutdown :
+    let s := (Tp.init 1 0 0 2 { tpCheckShutdown := false }).run
+      [.call 0 (.shutdown true), .step (.client 0) 0, .step (.worker 0) 0, .step (.worker 0) 0, .step (.worker 0) 0,
+       .call 1 (.sched 5), .step (.client 1) 0, .step (.client 0) 0]
+    s.freed = true ∧ s.accepted = [5] ∧ s.finished = [] ∧ s.dropped = [] := by decide
+
+/-- F36: an overflow thread that is not registered leaves at once ("should never be happen") without taking a task -/
+theorem tp_unfixed_overflow_thread_useless :
+    let s := (Tp.init 1 0 1 1 { tpRegisterOverflow := false }).run
+      [.call 0 (.sched 1), .step (.client 0) 0, .step (.worker 0) 0, .step (.worker 0) 0, .call 0 (.sched 2),
+       .step (.client 0) 0, .call 0 (.sched 3), .step (.client 0) 0, .step (.worker 1) 0]
+    s.ws = [.run 1, .exited] ∧ s.queue = [2, 3] ∧ s.threads = [0] := by decide
+
+/-- non-vacuity for the pool: two threads, an overflow thread that takes a task, waiting shutdown -/
+example :
+    let s := (Tp.init 1 0 1 2).run
+      [.call 0 (.sched 1), .step (.client 0) 0, .step (.worker 0) 0, .step (.worker 0) 0, .call 0 (.sched 2),
+       .step (.client 0) 0, .call 0 (.sched 3), .step (.client 0) 0, .step (.worker 1) 0, .step (.worker 1) 0,
+       .call 1 (.shutdown true), .step (.client 1) 0, .step (.worker 1) 0, .step (.worker 1) 0,
+       .step (.worker 0) 0, .step (.worker 0) 0, .step (.worker 0) 0, .step (.worker 0) 0, .step (.worker 0) 0,
+       .step (.client 1) 0, .step (.client 1) 0]
+    s.freed = true ∧ s.accepted = [1, 2, 3] ∧ s.started = [1, 2, 3] ∧ s.finished = [2, 1, 3] ∧ s.ws = [.exited, .exited] := by
+  decide
 
 end IwModel.C20
